@@ -421,12 +421,13 @@ Section Gates.
   Definition poseidon_output_constraints (ws : list K) (acc : list K * list K) : list K :=
     snd acc ++ map (fun i => nthF (fst acc) i - nthF ws (SW + i)) (seq 0 SW).
 
-  Definition eval_poseidon (ws : list K) : list K :=
+  Definition poseidon_eval_acc (ws : list K) : list K * list K :=
     let acc := fold_left (poseidon_first_full_step ws) (seq 0 HALF_FULL) (poseidon_input_state ws, poseidon_cs0 ws) in
     let acc := poseidon_partial_init acc in
     let acc := fold_left (poseidon_partial_round ws) (seq 0 N_PARTIAL) acc in
-    let acc := fold_left (poseidon_second_full_step ws) (seq 0 HALF_FULL) acc in
-    poseidon_output_constraints ws acc.
+    fold_left (poseidon_second_full_step ws) (seq 0 HALF_FULL) acc.
+  Definition eval_poseidon (ws : list K) : list K :=
+    poseidon_output_constraints ws (poseidon_eval_acc ws).
 
   (* ---- PoseidonMdsGate: the MDS layer on extension-algebra elements *)
   Definition pg_mds_row_shf_alg (r : nat) (v : list alg) : alg :=
@@ -584,12 +585,13 @@ Section Gates.
     let deltas := map (fun i => ((P_START_DELTA + i)%nat, swap * (nthF state (i + 4) - nthF state i))) (seq 0 4) in
     (if (swap =? 1) then firstn 4 (skipn 4 state) ++ firstn 4 state ++ skipn 8 state else state, deltas).
 
-  Definition poseidon_writes (row : list K) : list (nat * K) :=
+  Definition poseidon_gen_acc (row : list K) : list K * list (nat * K) :=
     let acc := fold_left poseidon_gen_first_full_step (seq 0 HALF_FULL) (poseidon_gen_start row) in
     let acc := poseidon_gen_partial_init acc in
     let acc := fold_left poseidon_gen_partial_round (seq 0 N_PARTIAL) acc in
-    let acc := fold_left poseidon_gen_second_full_step (seq 0 HALF_FULL) acc in
-    snd acc ++ combine (seq SW SW) (fst acc).
+    fold_left poseidon_gen_second_full_step (seq 0 HALF_FULL) acc.
+  Definition poseidon_writes (row : list K) : list (nat * K) :=
+    snd (poseidon_gen_acc row) ++ combine (seq SW SW) (fst (poseidon_gen_acc row)).
 
   (* InterpolationGenerator: the chain of (eval, prod) accumulators *)
   Fixpoint ci_gen_loop (bits degree : nat) (weights : list Z) (values : list alg) (sep : alg)
